@@ -372,7 +372,29 @@ impl Distinct {
     }
 }
 
+/// Angles a radial really carries, and the edges around them: exactly a full turn, just below
+/// it, zero of either sign, beyond a turn, negative.  (Arbitrary finite bit patterns come from
+/// `Distinct::f32`; these exact values never would.)
+pub const SPECIAL_ANGLES: [f32; 12] = [0.0, -0.0, 360.0, 359.99997, 360.00003, 180.0, 90.0, 720.0, -0.5, 0.5, 1.0, 359.5];
+
 pub fn gen_data_header(rng: &mut Rng, d: &mut Distinct) -> DataHeader {
+    let mut h = gen_data_header_plain(rng, d);
+    if rng.chance(1, 6) {
+        let a = *rng.pick(&SPECIAL_ANGLES);
+        if a.to_bits() != h.elev.to_bits() {
+            h.az = a;
+        }
+    }
+    if rng.chance(1, 10) {
+        let a = *rng.pick(&SPECIAL_ANGLES);
+        if a.to_bits() != h.az.to_bits() {
+            h.elev = a;
+        }
+    }
+    h
+}
+
+fn gen_data_header_plain(rng: &mut Rng, d: &mut Distinct) -> DataHeader {
     DataHeader {
         id: [b'K', b'A' + rng.below(26) as u8, b'A' + rng.below(26) as u8, b'A' + rng.below(26) as u8],
         time: rng.below(86_400_000) as u32,
@@ -702,6 +724,22 @@ pub fn gen_vcp(rng: &mut Rng, ncuts: usize) -> Vcp {
 // ---------------------------------------------------------------------------------------------
 // Type 2 — RDA status (60 halfwords)
 // ---------------------------------------------------------------------------------------------
+
+/// Exactly `n` bytes of valid UTF-8 made of characters of mixed widths (1..=4 bytes), so that
+/// character boundaries fall on arbitrary byte offsets.
+pub fn utf8_fill(rng: &mut Rng, n: usize) -> Vec<u8> {
+    const POOL: [&str; 10] = ["A", "7", ".", "\u{e9}", "\u{df}", "\u{65e5}", "\u{20ac}", "\u{1f600}", "\u{10348}", "_"];
+    let mut out: Vec<u8> = Vec::with_capacity(n);
+    while out.len() < n {
+        let c = POOL[rng.usize_below(POOL.len())];
+        if out.len() + c.len() <= n {
+            out.extend_from_slice(c.as_bytes());
+        } else {
+            out.push(b'x');
+        }
+    }
+    out
+}
 
 pub fn encode_halfwords(h: &[u16]) -> Vec<u8> {
     let mut b = Vec::with_capacity(h.len() * 2);
